@@ -49,6 +49,9 @@ type SSOCase struct {
 	Noise bool `json:"noise,omitempty"`
 	// Hist: the sending service provider used the IdP under an earlier registration, or was deregistered after using it.
 	Hist *History `json:"history,omitempty"`
+	// GoneAtPersist: the user agent goes away (request context cancelled) at the moment the IdP asks the storage to persist the
+	// request; the storage completes the write all the same.
+	GoneAtPersist bool `json:"gone_at_persist,omitempty"`
 }
 
 func (c SSOCase) hasDefect(name string) bool {
